@@ -284,7 +284,7 @@ def gen_sequences(ctx):
         for b in ALL_NAMES:
             seqs.append([("add", a, b"\x11"), ("has", b), ("open", "", b), ("add", b, b"\x22"), ("open", None, a),
                          ("del", b), ("has", a), ("has", b), ("del", a)])
-    nrand = 30000 if thorough else 2500
+    nrand = 30000 if thorough else 6000
     maxlen = 40 if thorough else 16
     for _ in range(nrand):
         seqs.append(random_sequence(rng, maxlen))
@@ -548,6 +548,22 @@ def run_oracle(ctx, index, outs, max_report=12):
     return nfail, seen
 
 
+def replay_file(ctx, impl, cwd):
+    """--replay <file>: re-run the recorded failing histories on the tree's real code and show the outputs."""
+    obj = json.load(open(ctx.replay))
+    for f in obj.get("failures", []):
+        h = (f.get("replay") or {}).get("history")
+        if not h:
+            continue
+        rc, outs, err = run_impl(ctx, impl, cwd, h)
+        print("REPLAY %s: %s" % (f.get("key"), f.get("what")))
+        for l, o in zip(h, outs + ["<no output: rc=%d>" % rc] * len(h)):
+            print("   %-40s -> %s" % (l, o))
+        was = f["replay"].get("impl_outputs")
+        if was is not None:
+            print("   outputs %s the recorded ones" % ("EQUAL" if was == outs else "DIFFER from"))
+
+
 def run(ctx):
     ctx.rule = ("histories = `reset` + op lines (add/addfile/del/has/hasfile/open) on one mjVFS; exhaustive fixed-length "
                 "sequences over curated alias groups (separator, '.', '..', case, absolute-prefix, empty-name spellings), all "
@@ -561,6 +577,8 @@ def run(ctx):
     root, cwd = make_scratch()
     cwd_fd = os.open(cwd, os.O_RDONLY)
     try:
+        if getattr(ctx, "replay", None):
+            replay_file(ctx, impl, cwd)
         pv = probe_variants(ctx, impl, cwd)
         if pv is None:
             ctx.oracle_failure("c39:crash", "VFS harness crashed on the probe histories", {"probe": True})
@@ -606,8 +624,11 @@ def run(ctx):
             s, ops = index[-1]
             ctx.sample({"history": [op_line(x) for x in ops], "impl_outputs": outs[s:s + len(ops)]})
         else:
+            at = min(len(outs), len(lines) - 1)
+            start = max(i for i in range(at + 1) if lines[i] == "reset" or i == 0)
             ctx.oracle_failure("c39:crash", "VFS harness crashed (rc=%s after %d of %d lines)" % (rc, len(outs), len(lines)),
-                               {"last_line": lines[min(len(outs), len(lines) - 1)], "stderr": err[-500:]})
+                               {"history": lines[start:at + 1], "stderr": err[-500:],
+                                "replay": "feed the history lines to the c39_vfs harness (./check C39 --replay <this file>)"})
 
         def directed(c):
             import random
